@@ -150,13 +150,16 @@ def make_invalid(rng, n, edges, only=None):
     return n, out, sorted(kinds)
 
 
-def write_dimacs(path, n, edges_w_tokens, rng, trailing_newline=True):
+def write_dimacs(path, n, edges_w_tokens, rng, trailing_newline=True, omit_unit=False):
     lines = []
     if rng.random() < 0.3: lines.append('c generated by the parmcb monitors')
     lines.append('p edge %d %d' % (n, len(edges_w_tokens)))
     for u, v, w in edges_w_tokens:
         if rng.random() < 0.05: lines.append('c comment')
-        lines.append('%s %d %d %s' % (rng.choice('ea'), u + 1, v + 1, w))
+        if omit_unit and str(w) == '1' and rng.random() < 0.6:
+            lines.append('%s %d %d' % (rng.choice('ea'), u + 1, v + 1))      # weight omitted: the reader's default of 1 applies
+        else:
+            lines.append('%s %d %d %s' % (rng.choice('ea'), u + 1, v + 1, w))
     txt = '\n'.join(lines) + ('\n' if trailing_newline else '')
     with open(path, 'w') as f:
         f.write(txt)
